@@ -2433,7 +2433,8 @@ class Signature(object):
 
         der_signature = ''
         hash_type = SIGHASH_ALL
-        if len(signature) > 64 and signature.startswith(b'\x30'):
+        # DER encoded with hash type byte: a short r or s makes it 64 bytes or less
+        if signature.startswith(b'\x30') and (len(signature) != 64 or signature[1] == len(signature) - 3):
             der_signature = signature[:-1]
             hash_type = int.from_bytes(signature[-1:], 'big')
             signature = convert_der_sig(signature[:-1], as_hex=False)
